@@ -100,19 +100,36 @@ func suiteFuzzGenerate(env *Env, res *Result) {
 	}
 	outs := compareWithModelAlt(env, res, cases)
 	// C03: where the model says the result depends on a map iteration order, show it on the binary
+	var suspects []int
 	for i, o := range outs {
 		if !strings.HasPrefix(o, "ORDER-DEPENDENT") && o == cases[i].Impl {
 			continue // model and binary agree on one result: nothing points at an order dependence
 		}
-		f := runs[i]
+		if cl := exitClass(runs[i].res); cl == "hang" || cl == "crash" {
+			continue // reported above
+		}
+		if len(suspects) < 60 {
+			suspects = append(suspects, i)
+		}
+	}
+	type rerun struct {
+		seen map[string]bool
+	}
+	rr := make([]rerun, len(suspects))
+	parallelFor(len(suspects), func(k int) {
+		f := runs[suspects[k]]
 		root := mkScratch(env, "fzr")
+		defer os.RemoveAll(root)
 		writeTree(root, f.tree)
 		seen := map[string]bool{implClass(f.res): true}
-		for k := 0; k < 24 && len(seen) < 2; k++ {
+		for j := 0; j < 24 && len(seen) < 2; j++ {
 			seen[implClass(runCLI(env, root, f.text, "-d", root, "regex", "generate", "-"))] = true
 		}
-		_ = os.RemoveAll(root)
-		if len(seen) > 1 {
+		rr[k] = rerun{seen}
+	})
+	for k, i := range suspects {
+		f := runs[i]
+		if len(rr[k].seen) > 1 {
 			all := f.text + "\n" + f.inc
 			shape := "c03_order_dependent_other"
 			if ambiguousIncludeLine(all) {
